@@ -15,7 +15,7 @@ pub fn property() -> Property {
     Property {
         id: "C09",
         level: "exploration",
-        rule: "The harness is the web: a generated table (scheme, host, port, request target) -> scripted response (status 200/404/every 3xx code incl. all of 300..399 in the exhaustive generator; 0, 1 or 2 Location fields) served by reactive scripted transports that answer according to the request line actually received. Webs are grown from a start URL by resolving generated Location strings (absolute incl. upper-case scheme/host, explicit default port and fragment; scheme-relative; absolute-path; relative-path with ./.. segments; query-only; fragment-only; missing; unusable: empty authority, broken IPv6 literal, blank in host; non-http schemes ftp/mailto/file/data) with the harness's own RFC 3986 section 5.2 resolver, giving chains, trees and cycles (self loops, 2- and 3-cycles). The expected walk is computed by simulating the table with that resolver; max_redirections in {0,1,2,5,7} (chains also under 2^31-1, 2^31, 2^32-2, 2^32-1), follow_redirects on/off. Oracle: the sequence of (address dialled, request target) observed equals the expected walk hop by hop; at most max+1 requests; too-many-redirections raised exactly when the (max+1)-th redirect arrives; only 301/302/303/307/308 followed; missing/unusable Location is an error with no further request; Response::status and Response::url (fragment ignored) are those of the last hop. Every walk is performed TWICE on the same PreparedRequest: the second send() must give the reference walk from the original URL with a fresh budget. Non-trivial: at least one redirect response served; distinct = hash(table, start, max, follow).",
+        rule: "The harness is the web: a generated table (scheme, host, port, request target) -> scripted response (status 200/404/every 3xx code incl. all of 300..399 in the exhaustive generator; 0, 1 or 2 Location fields) served by reactive scripted transports that answer according to the request line actually received. Webs are grown from a start URL by resolving generated Location strings (absolute incl. upper-case scheme/host, explicit default port and fragment; scheme-relative; absolute-path; relative-path with ./.. segments; query-only; fragment-only; missing; unusable: empty authority, broken IPv6 literal, blank in host; non-http schemes ftp/mailto/file/data) with the harness's own RFC 3986 section 5.2 resolver, giving chains, trees and cycles (self loops, 2- and 3-cycles). The expected walk is computed by simulating the table with that resolver; max_redirections in {0,1,2,5,7} (chains also under 2^31-1, 2^31, 2^32-2, 2^32-1), follow_redirects on/off. 'sequential-server': a real loopback origin that serves one connection at a time and lingers until the client closes (chains of 2/3/5 hops, read timeout 1.5 s) - the chain still ends where the server pointed; 'non-http-location-to-a-live-port': ftp/ws/gopher/foo/httpx Locations naming a real loopback listener - error, and the listener sees no connection. Oracle: the sequence of (address dialled, request target) observed equals the expected walk hop by hop; at most max+1 requests; too-many-redirections raised exactly when the (max+1)-th redirect arrives; only 301/302/303/307/308 followed; missing/unusable Location is an error with no further request; Response::status and Response::url (fragment ignored) are those of the last hop. Every walk is performed TWICE on the same PreparedRequest: the second send() must give the reference walk from the original URL with a fresh budget. Non-trivial: at least one redirect response served; distinct = hash(table, start, max, follow).",
         assumptions: &["Locations outside the subset on which RFC 3986 and the WHATWG URL standard agree (backslashes, %2e dot segments, IDN hosts, `http:relative`, empty Location, duplicate differing Location fields, non-UTF-8 bytes) are generated for robustness but their walk is not judged"],
         min_nontrivial: |t| t.pick(3_000, 100_000),
         gens,
